@@ -577,3 +577,210 @@ Proof.
   destruct (C01_consistent_implies_spec_proof s Hwf Hcl Htp Hco o n Hin) as (F & HF & He).
   apply bool_decide_eq_true. apply He. lia.
 Qed.
+
+(** * Monotonicity of the evaluators in the fuel *)
+Lemma mapM_mono {A B} (f f' : A -> option B) l bs :
+  (forall a b, a ∈ l -> f a = Some b -> f' a = Some b) -> mapM f l = Some bs -> mapM f' l = Some bs.
+Proof.
+  revert bs. induction l as [|a l IH]; intros bs H Hm; [done|]. simpl in *.
+  destruct (f a) as [b|] eqn:E; [|discriminate Hm].
+  destruct (mapM f l) as [bs'|] eqn:E'; [|discriminate Hm].
+  rewrite (H a b) by (done || left). rewrite (IH bs'); [done| |done].
+  intros a' b' Ha'. apply H. by right.
+Qed.
+
+Lemma evalT_mono (ev ev' : nid -> option Z) :
+  (forall n v, ev n = Some v -> ev' n = Some v) ->
+  forall F F' x e v, (F <= F')%nat -> evalT F ev x e = Some v -> evalT F' ev' x e = Some v.
+Proof.
+  intros Hev. induction F as [|F IH]; intros F' x e v HF H; [discriminate H|].
+  destruct F' as [|F']; [lia|]. assert (HF' : (F <= F')%nat) by lia.
+  destruct e as [k| |m|f e|f e1 e2|c e|cases e|]; cbn [evalT] in *; try done.
+  - by apply Hev.
+  - destruct (evalT F ev x e) as [w|] eqn:E; [|discriminate H].
+    by rewrite (IH F' x e w HF' E).
+  - destruct (evalT F ev x e1) as [w1|] eqn:E1; [|discriminate H].
+    destruct (evalT F ev x e2) as [w2|] eqn:E2; [|discriminate H].
+    by rewrite (IH F' x e1 w1 HF' E1), (IH F' x e2 w2 HF' E2).
+  - destruct c; try done; by apply IH.
+  - destruct (evalT F ev x e) as [w|] eqn:E; [|discriminate H].
+    rewrite (IH F' x e w HF' E). by apply IH.
+Qed.
+
+Lemma eval_mono s : forall F F' n v, (F <= F')%nat -> eval s F n = Some v -> eval s F' n = Some v.
+Proof.
+  induction F as [|F IH]; intros F' n v HF H; [discriminate H|].
+  destruct F' as [|F']; [lia|]. assert (HF' : (F <= F')%nat) by lia.
+  cbn [eval] in *. cbv zeta in *.
+  destruct (nkind (nd s n)) as [eqv| |f|f|f|c| |b|b]; try done.
+  - destruct (decl (nd s n)) as [|a [|? ?]]; try done.
+    destruct (eval s F a) as [w|] eqn:E; [|discriminate H]. by rewrite (IH F' a w HF' E).
+  - destruct (decl (nd s n)) as [|a1 [|a2 [|? ?]]]; try done.
+    destruct (eval s F a1) as [w1|] eqn:E1; [|discriminate H].
+    destruct (eval s F a2) as [w2|] eqn:E2; [|discriminate H].
+    by rewrite (IH F' a1 w1 HF' E1), (IH F' a2 w2 HF' E2).
+  - destruct (mapM (eval s F) (decl (nd s n))) as [ws|] eqn:E; [|discriminate H].
+    rewrite (mapM_mono (eval s F) (eval s F') _ ws); [done| |done].
+    intros a w _. by apply IH.
+  - destruct (decl (nd s n)) as [|a [|? ?]]; try done. destruct c; try done; by apply IH.
+  - destruct (decl (nd s n)) as [|a [|? ?]]; try done. by apply IH.
+  - destruct (eval s F (b_lhs (bd s b))) as [w|] eqn:E; [|discriminate H].
+    rewrite (IH F' _ w HF' E).
+    apply (evalT_mono (eval s F) (eval s F')) with (F := F); [|done|done].
+    intros m u. by apply IH.
+Qed.
+
+(** * [eval] reads only the program: node kinds, declared inputs, held values, and of a bind
+    record its input and its case table.  (It never looks at heights, stamps, edges, the heap,
+    the memoisation fields of a bind, ...) *)
+Lemma mapM_ext {A B} (f f' : A -> option B) l : (forall a, f a = f' a) -> mapM f l = mapM f' l.
+Proof. intros H. induction l as [|a l IH]; [done|]. simpl. by rewrite H, IH. Qed.
+
+Lemma evalT_ext (ev ev' : nid -> option Z) : (forall n, ev n = ev' n) ->
+  forall F x e, evalT F ev x e = evalT F ev' x e.
+Proof.
+  intros Hev. induction F as [|F IH]; intros x e; [done|].
+  destruct e as [k| |m|f e|f e1 e2|c e|cases e|]; cbn [evalT]; try done.
+  - by rewrite (IH x e).
+  - by rewrite (IH x e1), (IH x e2).
+  - destruct c; try done; apply IH.
+  - rewrite (IH x e). destruct (evalT F ev' x e); [apply IH|done].
+Qed.
+
+Lemma eval_reads_only s s' :
+  (forall n, nkind (nd s' n) = nkind (nd s n) /\ decl (nd s' n) = decl (nd s n)
+             /\ value (nd s' n) = value (nd s n)) ->
+  (forall b, b_lhs (bd s' b) = b_lhs (bd s b) /\ b_cases (bd s' b) = b_cases (bd s b)) ->
+  forall fuel n, eval s' fuel n = eval s fuel n.
+Proof.
+  intros Hn Hb. induction fuel as [|F IH]; intros n; [done|].
+  cbn [eval]. cbv zeta. destruct (Hn n) as (-> & -> & ->).
+  destruct (nkind (nd s n)) as [eqv| |f|f|f|c| |b|b]; try done.
+  - destruct (decl (nd s n)) as [|a [|? ?]]; try done. by rewrite IH.
+  - destruct (decl (nd s n)) as [|a1 [|a2 [|? ?]]]; try done. by rewrite !IH.
+  - by rewrite (mapM_ext (eval s' F) (eval s F)).
+  - destruct (decl (nd s n)) as [|a [|? ?]]; try done. destruct c; try done; apply IH.
+  - destruct (decl (nd s n)) as [|a [|? ?]]; try done.
+  - destruct (Hb b) as [-> ->]. rewrite IH.
+    destruct (eval s F (b_lhs (bd s b))); [|done]. by apply evalT_ext.
+Qed.
+
+(** ** C09, spec half: the from-scratch meaning ignores memoisation *)
+Lemma bd_updb s b g b' :
+  bd (updb s b g) b' = if decide (b' = b) then
+                         match binds s !! b with Some r => g r | None => bd s b end
+                       else bd s b'.
+Proof.
+  unfold bd, updb. simpl. destruct (decide (b' = b)) as [->|Hne].
+  - rewrite lookup_alter. by destruct (binds s !! b).
+  - by rewrite lookup_alter_ne.
+Qed.
+
+Lemma C09_spec_ignores_memo_proof s b :
+  (forall f fuel n, eval (updb s b (set b_memo f)) fuel n = eval s fuel n) /\
+  (forall f fuel n, eval (updb s b (set b_cache f)) fuel n = eval s fuel n).
+Proof.
+  split; intros f; apply eval_reads_only; try done;
+    intros b'; rewrite bd_updb; destruct (decide (b' = b)) as [->|]; try done;
+    unfold bd; destruct (binds s !! b) as [[]|]; done.
+Qed.
+
+(** * C11, spec half: the from-scratch semantics treats an equality cutoff as the identity *)
+Lemma eval_cutoff_eq s fuel n a :
+  nkind (nd s n) = KCutoff CEq -> decl (nd s n) = [a] -> eval s (S fuel) n = eval s fuel a.
+Proof. intros Hk Hd. cbn [eval]. cbv zeta. by rewrite Hk, Hd. Qed.
+
+Lemma evalT_cut_eq fuel ev x e : evalT (S fuel) ev x (TCut CEq e) = evalT fuel ev x e.
+Proof. reflexivity. Qed.
+
+(* the meaning of a node / of a template, fuel abstracted *)
+Definition denotes (s : state) (n : nid) (v : Z) : Prop := exists fuel, eval s fuel n = Some v.
+Definition denotesT (ev : nid -> option Z) (x : Z) (e : texp) (v : Z) : Prop :=
+  exists fuel, evalT fuel ev x e = Some v.
+
+Lemma C11_equal_cutoff_inert_spec_proof :
+  (forall s n a fuel, nkind (nd s n) = KCutoff CEq -> decl (nd s n) = [a] ->
+     eval s (S fuel) n = eval s fuel a)
+  /\ (forall fuel ev x e, evalT (S fuel) ev x (TCut CEq e) = evalT fuel ev x e)
+  /\ (forall s n a v, nkind (nd s n) = KCutoff CEq -> decl (nd s n) = [a] ->
+        (denotes s n v <-> denotes s a v))
+  /\ (forall ev x e v, denotesT ev x (TCut CEq e) v <-> denotesT ev x e v).
+Proof.
+  split; [intros; by apply eval_cutoff_eq|]. split; [reflexivity|]. split.
+  - intros s n a v Hk Hd. split; intros [F H].
+    + destruct F as [|F]; [discriminate H|]. rewrite (eval_cutoff_eq _ _ _ _ Hk Hd) in H. by exists F.
+    + exists (S F). by rewrite (eval_cutoff_eq _ _ _ _ Hk Hd).
+  - intros ev x e v. split; intros [F H].
+    + destruct F as [|F]; [discriminate H|]. by exists F.
+    + by exists (S F).
+Qed.
+
+(** * Non-vacuity: concrete reachable states satisfying every hypothesis of Theorem A *)
+Definition ex_ops1 : list op :=
+  [ NewVar 3 true;                       (* node 0 *)
+    NewVar 4 true;                       (* node 1 *)
+    NewMapN Sum [0%nat; 1%nat];          (* node 2 *)
+    NewCutoff CEq 2%nat;                 (* node 3 *)
+    NewBind [TMap (Aff 1 1) TX;          (* nodes 4 (lhs-change) and 5 (main), over node 3 *)
+             TOuter 3%nat;
+             TBind [TRet 5; TMap2 (Lin2 1 1 0) TX (TCut CEq (TOuter 1%nat))] (TOuter 0%nat)] 3%nat;
+    NewAlways 5%nat;                     (* node 6 *)
+    Observe 6%nat;                       (* observer 7 *)
+    Observe 3%nat;                       (* observer 8 *)
+    Stabilize [] ].
+(* a MapN input added, the bind switches to its first case *)
+Definition ex_ops2 : list op := ex_ops1 ++ [SetVar 0%nat 5; AddInput 2%nat 0%nat; Stabilize []].
+(* a MapN input removed, the bind switches to the case that is itself a bind over an outer node *)
+Definition ex_ops3 : list op := ex_ops2 ++ [SetVar 1%nat 2; RemoveInput 2%nat 0%nat; Stabilize []].
+Definition ex_state (ops : list op) : state :=
+  match run (init 256) ops with Ok s => s | _ => init 0 end.
+
+Definition ex_hyps (s : state) : bool := wfb s && closed s && templates_ok s && consistent s.
+
+(* case 1 selected: the bind returns the outer node 3 (the cutoff over the MapN) *)
+Example ex1_hypotheses_hold : ex_hyps (ex_state ex_ops1) = true.
+Proof. vm_compute. reflexivity. Qed.
+Example ex1_conclusion :
+  let s := ex_state ex_ops1 in
+  obs s !! 7%nat = Some 6%nat /\ valueOf s 6%nat = 7 /\ eval s (next s) 6%nat = Some 7
+  /\ observers_agree s = true.
+Proof. vm_compute. repeat split; reflexivity. Qed.
+
+(* case 0 selected after AddInput *)
+Example ex2_hypotheses_hold : ex_hyps (ex_state ex_ops2) = true.
+Proof. vm_compute. reflexivity. Qed.
+Example ex2_conclusion :
+  let s := ex_state ex_ops2 in
+  obs s !! 7%nat = Some 6%nat /\ valueOf s 6%nat = 4 /\ eval s (next s) 6%nat = Some 4
+  /\ obs s !! 8%nat = Some 3%nat /\ valueOf s 3%nat = 3 /\ eval s (next s) 3%nat = Some 3
+  /\ observers_agree s = true.
+Proof. vm_compute. repeat split; reflexivity. Qed.
+
+(* case 2 selected after RemoveInput: a nested bind whose own case reads an outer node through
+   an equality cutoff *)
+Example ex3_hypotheses_hold : ex_hyps (ex_state ex_ops3) = true.
+Proof. vm_compute. reflexivity. Qed.
+Example ex3_conclusion :
+  let s := ex_state ex_ops3 in
+  obs s !! 7%nat = Some 6%nat /\ valueOf s 6%nat = 7 /\ eval s (next s) 6%nat = Some 7
+  /\ rank s 6%nat = 11%nat /\ next s = 16%nat /\ observers_agree s = true.
+Proof. vm_compute. repeat split; reflexivity. Qed.
+
+(* Theorem A applied to the examples (not by computation) *)
+Example ex3_by_theorem : observers_agree (ex_state ex_ops3) = true.
+Proof.
+  pose proof ex3_hypotheses_hold as H. unfold ex_hyps in H.
+  apply andb_true_iff in H as [H H4]. apply andb_true_iff in H as [H H3].
+  apply andb_true_iff in H as [H1 H2]. exact (C01_observers_agree_proof _ H1 H2 H3 H4).
+Qed.
+
+(** [templates_ok] cannot be dropped: a parity cutoff created inside a bind is history
+    dependent, [evalT] gives it no value, and so a state can be well formed, closed and
+    locally consistent while the observer's value has no from-scratch counterpart. *)
+Definition ex_parity_ops : list op :=
+  [NewVar 3 true; NewBind [TCut CParity TX] 0%nat; Observe 2%nat; Stabilize []].
+Example templates_ok_needed :
+  let s := ex_state ex_parity_ops in
+  wfb s = true /\ closed s = true /\ consistent s = true
+  /\ templates_ok s = false /\ observers_agree s = false.
+Proof. vm_compute. repeat split; reflexivity. Qed.
